@@ -268,12 +268,22 @@ type solverSpec struct {
 }
 
 var solvers = []solverSpec{
-	{"z3-new", func(f string, t int) []string { return []string{"z3-new", fmt.Sprintf("-T:%d", t), "smt.random_seed=" + seedStr(), f} }},
-	{"cvc5", func(f string, t int) []string {
-		return []string{"cvc5", fmt.Sprintf("--tlimit=%d", t*1000), "--seed=" + seedStr(), f}
+	{"z3-new", func(f string, t int) []string {
+		return []string{"z3-new", fmt.Sprintf("-T:%d", t), fmt.Sprintf("smt.random_seed=%d", globalSeed+seedShift), f}
 	}},
-	{"z3", func(f string, t int) []string { return []string{"z3", fmt.Sprintf("-T:%d", t), "smt.random_seed=" + seedStr(), f} }},
+	{"z3-new/em", func(f string, t int) []string {
+		return []string{"z3-new", fmt.Sprintf("-T:%d", t), "smt.mbqi=false", fmt.Sprintf("smt.random_seed=%d", globalSeed+seedShift+1), f}
+	}},
+	{"cvc5", func(f string, t int) []string {
+		return []string{"cvc5", fmt.Sprintf("--tlimit=%d", t*1000), fmt.Sprintf("--seed=%d", globalSeed+seedShift), f}
+	}},
+	{"z3", func(f string, t int) []string {
+		return []string{"z3", fmt.Sprintf("-T:%d", t), fmt.Sprintf("smt.random_seed=%d", globalSeed+seedShift), f}
+	}},
 }
+
+// seedShift changes on retries so that a second attempt explores differently
+var seedShift = 0
 
 var globalSeed = 0
 
@@ -281,6 +291,10 @@ func seedStr() string { return fmt.Sprintf("%d", globalSeed) }
 
 // Solve races the solvers on one obligation.
 func Solve(o *Obligation, dir string, timeoutS int, wantModel bool) {
+	solveWith(o, dir, timeoutS, wantModel, 0)
+}
+
+func solveWith(o *Obligation, dir string, timeoutS int, wantModel bool, shift int) {
 	q := o.Query(wantModel)
 	o.SMTSize = len(q)
 	if len(q) > 4_000_000 {
@@ -304,6 +318,15 @@ func Solve(o *Obligation, dir string, timeoutS int, wantModel bool) {
 		s := s
 		go func() {
 			a := s.args(file, timeoutS)
+			for i := range a {
+				// per-call seed shift (seedShift is only read here)
+				if shift != 0 && strings.Contains(a[i], "seed=") {
+					j := strings.Index(a[i], "seed=") + 5
+					var n int
+					fmt.Sscanf(a[i][j:], "%d", &n)
+					a[i] = a[i][:j] + fmt.Sprintf("%d", n+shift)
+				}
+			}
 			cmd := exec.CommandContext(ctx, a[0], a[1:]...)
 			var out bytes.Buffer
 			cmd.Stdout = &out
@@ -369,8 +392,8 @@ func SolveAll(obs []*Obligation, dir string, timeoutS, workers int) {
 				}
 				Solve(o, dir, timeoutS, true)
 				if o.Result != "sat" && o.Result != "unsat" {
-					// retry once with a longer limit before reporting
-					Solve(o, dir, timeoutS*4, true)
+					// retry once with other seeds and a longer limit before reporting
+					solveWith(o, dir, timeoutS*3, true, 17)
 				}
 			}
 		}()
